@@ -1,7 +1,7 @@
 (* C10_src — the source's read(), run over the model of SocketWrapper: the translation tie of C06_src instantiated with the
    socket model's read(n) / readline() as the stream.  Statements only. *)
 From Coq Require Import ZArith List String Lia.
-From PyUbx Require Import Base Bytes Reader Socket Strs Consts PyMini PySrcIO Src_common Read_iter ReaderTie.
+From PyUbx Require Import Base Bytes Reader Socket Strs Consts PyMini PySrcIO Src_common Read_iter ReaderTie Src_socket.
 Import ListNotations.
 Open Scope Z_scope.
 
@@ -29,3 +29,25 @@ Theorem C10_read_from_source_over_socket (P : Type) (parse : N -> bytes -> resul
           (Read_iter.read_one sock_read sock_readline parse nmea_hdr c fuel (w_stream w) []).
 Proof. intros. eapply read_agree; try eassumption. exact sock_read_le. Qed.
 Print Assumptions C10_read_from_source_over_socket.
+
+(* SocketWrapper._recv() and SocketWrapper.read(num) as the source has them now (translated on every run), for EVERY sequence
+   of recv() results (data, empty data, OSError / TimeoutError; `rcv`), every buffer content and every num: the value
+   returned, the recv() results consumed and the buffer left behind are the model's (`recv`, `sock_read_aux`, the objects of
+   C10_read_exact).  `fuel` bounds the top-up loop and only has to exceed the number of recv() results still to come. *)
+Theorem C10_recv_from_source (attr : string -> gv) (bufsize : Z) :
+  attr "_bufsize" = gint bufsize -> mem_s "py_sock_recv" translated_io = true ->
+  forall l eff st b, has_buf st b ->
+  exists st', py_sock_recv rcv attr (SW l eff st) =
+              (Ok (gbool (fst (recv {| buf := b; evs := l |}))), SW (evs (snd (recv {| buf := b; evs := l |}))) eff st')
+              /\ has_buf st' (buf (snd (recv {| buf := b; evs := l |}))).
+Proof. intros; eapply recv_io; eassumption. Qed.
+Print Assumptions C10_recv_from_source.
+
+Theorem C10_sock_read_from_source (attr : string -> gv) (bufsize : Z) :
+  attr "_bufsize" = gint bufsize -> mem_s "py_sock_recv" translated_io = true -> mem_s "py_sockread" translated_io = true ->
+  forall (n : nat) l b eff st fuel, has_buf st b -> (length l < fuel)%nat ->
+  exists st', py_sockread rcv attr fuel (gint (Z.of_nat n)) (SW l eff st) =
+              (Ok (gbytes (fst (sock_read_aux n b l))), SW (evs (snd (sock_read_aux n b l))) eff st')
+              /\ has_buf st' (buf (snd (sock_read_aux n b l))).
+Proof. intros; eapply read_io; eassumption. Qed.
+Print Assumptions C10_sock_read_from_source.
